@@ -210,6 +210,30 @@ std::string run_msg(const Msg &m, vf::Ctx &ctx) {
     if (!(e = check_val("rtosc_argument", i, m.vals[i], t, a, msg, n)).empty()) return e;
   }
 
+  // the same bytes at an address that is not a multiple of four (inside another buffer, behind a one-byte header, ...):
+  // the format pads relative to the start of the message, not to memory
+  {
+    const size_t off = 1 + (n + m.tags.size()) % 3;
+    std::unique_ptr<char[]> ub(new char[n + off]);
+    memset(ub.get(), 0x55, off);
+    memcpy(ub.get() + off, ref.data(), n);
+    const char *um = ub.get() + off;
+    if (rtosc_message_length(um, n) != n) return "rtosc_message_length of the message at an unaligned address (offset " + std::to_string(off) + ") != " + std::to_string(n);
+    if (rtosc_narguments(um) != m.vals.size()) return "rtosc_narguments differs for the message at an unaligned address";
+    size_t y = 0;
+    for (rtosc_arg_itr_t it = rtosc_itr_begin(um); !rtosc_itr_end(it);) {
+      rtosc_arg_val_t av = rtosc_itr_next(&it);
+      if (y >= m.vals.size()) return "iterator over the message at an unaligned address yields too many values";
+      if (!(e = check_val("iterator (message at an unaligned address)", y, m.vals[y], av.type, av.val, um, n)).empty()) return e;
+      y++;
+    }
+    if (y != m.vals.size()) return "iterator over the message at an unaligned address yields " + std::to_string(y) + " values, expected " + std::to_string(m.vals.size());
+    for (size_t i = 0; i < m.vals.size(); i++) {
+      rtosc_arg_t a = rtosc_argument(um, (unsigned)i);
+      if (!(e = check_val("rtosc_argument (message at an unaligned address)", i, m.vals[i], rtosc_type(um, (unsigned)i), a, um, n)).empty()) return e;
+    }
+  }
+
   // classification
   bool nontriv = m.tags.size() > 0;
   if (nontriv) {
